@@ -35,12 +35,18 @@ panics or loops (C15 deals with that at the archive boundary). -/
 def FilterConfig.Valid (f : FilterConfig) : Prop :=
   1 ≤ f.window ∧ f.window ≤ f.maxSize ∧ f.minSize ≤ f.maxSize ∧ 1 ≤ f.bits ∧ f.bits ≤ 30
 
+/-- RollSum needs no relation between window and maximum chunk size (its hasher needs no warm-up):
+this is exactly what `Archive::try_init` accepts since the F8 repair (`configAccepted`). -/
+def FilterConfig.ValidRoll (f : FilterConfig) : Prop :=
+  1 ≤ f.window ∧ 1 ≤ f.maxSize ∧ f.minSize ≤ f.maxSize ∧ 1 ≤ f.bits ∧ f.bits ≤ 30
+
 def Config.Valid : Config → Prop
   | .buzhash f => f.Valid
-  | .rollsum f => f.Valid
+  | .rollsum f => f.ValidRoll
   | .fixed n => 1 ≤ n
 
 instance (f : FilterConfig) : Decidable f.Valid := by unfold FilterConfig.Valid; infer_instance
+instance (f : FilterConfig) : Decidable f.ValidRoll := by unfold FilterConfig.ValidRoll; infer_instance
 instance (c : Config) : Decidable c.Valid := by cases c <;> simp only [Config.Valid] <;> infer_instance
 
 /-- Fields of `RollingHashChunker` fixed at construction. -/
